@@ -571,7 +571,8 @@ func (c *Client) send(dest *net.UDPAddr, msg *dhcpv4.DHCPv4) (resp <-chan *dhcpv
 
 	ch := make(chan *dhcpv4.DHCPv4, c.bufferCap)
 	done := make(chan struct{})
-	c.pending[msg.TransactionID] = &pendingCh{done: done, ch: ch}
+	entry := &pendingCh{done: done, ch: ch}
+	c.pending[msg.TransactionID] = entry
 	c.pendingMu.Unlock()
 
 	cancel = func() {
@@ -584,7 +585,10 @@ func (c *Client) send(dest *net.UDPAddr, msg *dhcpv4.DHCPv4) (resp <-chan *dhcpv
 		close(done)
 
 		c.pendingMu.Lock()
-		if p, ok := c.pending[msg.TransactionID]; ok {
+		// Only remove our own entry: the receive loop may already have
+		// removed it, and another call may have registered the same
+		// transaction ID since.
+		if p, ok := c.pending[msg.TransactionID]; ok && p == entry {
 			close(p.ch)
 			delete(c.pending, msg.TransactionID)
 		}
